@@ -294,12 +294,27 @@ class Ctx:
         self.obls.append(Obligation(name, kind, label, self.hyps(), goal, len(self.facts), len(self.cutdefs),
                                     f"{file}:{func}", line, meta or {}, under_cut))
         if kind not in ("cut-lemma", "ieee-bump-effective", "cover") and self.notes.get("bumps"):
-            from .terms import subterm_ids
-            ids = subterm_ids([goal])
-            for bid, (bt, base, eps) in self.notes["bumps"].items():
-                if bid in ids and ("bump", bid) not in self.memo:
+            # does the goal compare something against a value that was bumped by a tiny literal?  (then its real-arithmetic proof
+            # relies on the bump being effective, which is a rounding question: re-discharged in IEEE-754, DESIGN 4-C17)
+            bumps = self.notes["bumps"]
+            hit = []
+            seen = set()
+            stack = [goal]
+            while stack:
+                u = stack.pop()
+                if u.get_id() in seen: continue
+                seen.add(u.get_id())
+                if z3.is_app(u):
+                    if u.decl().kind() in (z3.Z3_OP_LE, z3.Z3_OP_LT, z3.Z3_OP_GE, z3.Z3_OP_GT):
+                        ch = u.children()
+                        for c, other in ((ch[0], ch[1]), (ch[1], ch[0])):
+                            if c.get_id() in bumps and not is_num(other):      # compared with a non-constant: strictness may hinge on the bump
+                                hit.append(c.get_id())
+                    stack.extend(u.children())
+            for bid in hit:
+                bt, base, eps = bumps[bid]
+                if ("bump", bid) not in self.memo:
                     self.memo[("bump", bid)] = bt
-                    # the real-arithmetic proof of this index bound compares against base + eps: re-discharged in IEEE-754
                     self.oblige("ieee-bump-effective", z3.BoolVal(True), loc=loc, meta={"fp": True, "eps": str(eps), "base": str(base)[:80],
                                                                                         "base_num": str(num(base)) if is_num(base) else None})
         return name
